@@ -483,3 +483,117 @@ impl WorkerTree {
         Ok(())
     }
 }
+
+/// Plain data view of one work item (verification hook H1, feature `verif` only).
+#[cfg(feature = "verif")]
+#[derive(Debug, Clone, PartialEq, Eq)]
+pub struct VerifNode {
+    /// index of the node inside the graph
+    pub id: usize,
+    pub source: PathBuf,
+    pub output: PathBuf,
+    /// one of `not_started`, `in_progress`, `done_ok`, `done_err`
+    pub status: &'static str,
+    /// the error message when the status is `done_err`
+    pub error: Option<String>,
+    /// sorted
+    pub external_file_dependencies: Vec<PathBuf>,
+}
+
+/// Plain data view of the internal state of a [`WorkerTree`] (verification hook H1, feature
+/// `verif` only). Taking a snapshot does not modify the worker tree.
+#[cfg(feature = "verif")]
+#[derive(Debug, Clone, PartialEq, Eq)]
+pub struct VerifSnapshot {
+    /// live nodes of the graph, sorted by id
+    pub nodes: Vec<VerifNode>,
+    /// edges of the graph as (from id, to id), sorted
+    pub edges: Vec<(usize, usize)>,
+    /// content of `node_map`, sorted by path
+    pub node_map: Vec<(PathBuf, usize)>,
+    /// content of `external_dependencies` (path -> sorted node ids), sorted by path
+    pub external_dependencies: Vec<(PathBuf, Vec<usize>)>,
+    /// output files queued for deletion
+    pub remove_files: Vec<PathBuf>,
+    pub last_configuration_hash: Option<u64>,
+    /// content of `output_structure` (path, is file), sorted by path
+    pub output_structure: Option<Vec<(PathBuf, bool)>>,
+}
+
+#[cfg(feature = "verif")]
+impl WorkerTree {
+    /// Returns a plain data snapshot of the internal state (verification hook H1).
+    pub fn verif_snapshot(&self) -> VerifSnapshot {
+        let mut nodes: Vec<VerifNode> = self
+            .graph
+            .node_indices()
+            .filter_map(|index| {
+                self.graph.node_weight(index).map(|item| {
+                    let (status, error) = match &item.status {
+                        WorkStatus::NotStarted => ("not_started", None),
+                        WorkStatus::InProgress(_) => ("in_progress", None),
+                        WorkStatus::Done(Ok(())) => ("done_ok", None),
+                        WorkStatus::Done(Err(err)) => ("done_err", Some(err.to_string())),
+                    };
+                    let mut dependencies: Vec<PathBuf> =
+                        item.external_file_dependencies.iter().cloned().collect();
+                    dependencies.sort();
+                    VerifNode {
+                        id: index.index(),
+                        source: item.data.source().to_path_buf(),
+                        output: item.data.output().to_path_buf(),
+                        status,
+                        error,
+                        external_file_dependencies: dependencies,
+                    }
+                })
+            })
+            .collect();
+        nodes.sort_by_key(|node| node.id);
+
+        let mut edges: Vec<(usize, usize)> = self
+            .graph
+            .edge_indices()
+            .filter_map(|edge| self.graph.edge_endpoints(edge))
+            .map(|(from, to)| (from.index(), to.index()))
+            .collect();
+        edges.sort();
+
+        let mut node_map: Vec<(PathBuf, usize)> = self
+            .node_map
+            .iter()
+            .map(|(path, index)| (path.clone(), index.index()))
+            .collect();
+        node_map.sort();
+
+        let mut external_dependencies: Vec<(PathBuf, Vec<usize>)> = self
+            .external_dependencies
+            .iter()
+            .map(|(path, container)| {
+                let mut ids: Vec<usize> = container.iter().map(|index| index.index()).collect();
+                ids.sort();
+                (path.clone(), ids)
+            })
+            .collect();
+        external_dependencies.sort();
+
+        let output_structure = self.output_structure.as_ref().map(|structure| {
+            let mut entries: Vec<(PathBuf, bool)> = structure
+                .iter()
+                .map(|(path, is_file)| (path.clone(), *is_file))
+                .collect();
+            entries.sort();
+            entries
+        });
+
+        VerifSnapshot {
+            nodes,
+            edges,
+            node_map,
+            external_dependencies,
+            remove_files: self.remove_files.clone(),
+            last_configuration_hash: self.last_configuration_hash,
+            output_structure,
+        }
+    }
+}
